@@ -22,7 +22,11 @@ RULE = ('real OntologyStore with injected fake release / remote services. (1) se
         'invariant (every file at a cache location byte-identical to the remote payload), a healthy reload must succeed, the boundary-kind '
         'sequence must be the model\'s step sequence and no cache path may ever be opened for writing; (3) schedules: two real loader '
         'threads (same key / different keys / load vs clear) serialised by a baton handed over only at boundaries, all two-switch '
-        'schedules plus random ones, invariant evaluated on the real tree at every boundary. Non-trivial: a fault, a crash, a repeated '
+        'schedules plus random ones, invariant evaluated on the real tree at every boundary; (4) the SHIPPED GitHubOntologyReleaseService / '
+        'GitHubRemoteOntologyService behind a fake `urlopen` (tag listings in which every day 01..31 and every month 01..12 is the '
+        'greatest tag once, near-miss names, empty listings, random ASCII listings): production tags and the latest must be the Lean '
+        "model's (Hpv.Tags), the URL downloaded and the cache content must be those of that release. Remote responses return at most "
+        '5-7 bytes per SIZED read (legal short reads). Non-trivial: a fault, a crash, a repeated '
         'load or a second thread is involved; distinct by the whole history / crash point / schedule.')
 
 THEOREM = 'Hpv.Props.C07.*'
@@ -192,6 +196,8 @@ def services(plan_holder):
             if plan_holder.get('read') == 'fail':
                 plan_holder['read'] = 'ok'
                 raise ConnectionError('injected: transfer failed')
+            if a and a[0] is not None and a[0] >= 0:
+                return super().read(min(a[0], 7))      # a sized read may legally return fewer bytes than asked for
             return super().read(*a)
 
     class Rel(OntologyReleaseService):
@@ -346,14 +352,14 @@ def run_history(ctx, ops, relative, stream):
             fetches_i = [[ty, rel_index(ty, r)] for ty, r in rem.calls]
             problem = None
             if not ok:
-                problem = {'what': f'result-of-{op[0]}', 'impl': res, 'model': mr}
+                problem = {"what": f'result-of-{op[0]}', 'impl': res, 'model': mr}
             elif i_cache != m_cache:
-                problem = {'what': 'cache-files', 'impl': {f'{k[0]} {k[1]}': len(v) for k, v in i_cache.items()},
+                problem = {"what": 'cache-files', 'impl': {f'{k[0]} {k[1]}': len(v) for k, v in i_cache.items()},
                            'model': {f'{k[0]} {k[1]}': len(v) for k, v in m_cache.items()}}
             elif other != mw['tmp']:
-                problem = {'what': 'stray-entries', 'impl': other, 'model': mw['tmp']}
+                problem = {"what": 'stray-entries', 'impl': other, 'model': mw['tmp']}
             elif fetches_i != mw['fetches']:
-                problem = {'what': 'fetch-log', 'impl': fetches_i, 'model': mw['fetches']}
+                problem = {"what": 'fetch-log', 'impl': fetches_i, 'model': mw['fetches']}
             if problem:
                 ctx.violation(f'history:{problem["what"]}', {'case': {'kind': 'history', 'ops': ops, 'relative': relative, 'failing_op_index': i},
                                                              'disagreement': problem, 'theorem': THEOREM})
@@ -626,10 +632,115 @@ def schedules(ctx, rng, thorough):
                 return
 
 
+# ------------------------------------------------------------------ (4) the shipped GitHub services behind a fake `urlopen`
+
+GH_REPOS = {'obophenotype/human-phenotype-ontology': 'HPO', 'monarch-initiative/MAxO': 'MAxO', 'monarch-initiative/mondo': 'MONDO'}
+JUNK_TAGS = ['v2024-12-12X', 'v2024-1-01', '2024-01-01', 'V2024-01-01', 'v2024-01-01-rc1', 'vv2024-01-01', 'v2024-01-011', 'hp/v2024-01-01',
+             'v2024_01_01', ' v2024-01-01', 'v2024-01-01 ', 'v24-01-01', 'v2024-01', 'latest', '', 'v2024-0a-01', 'v9999-99-9', 'x2024-01-01']       # ASCII names only: Python's \\d also matches other Unicode decimal digits, the model's isDigit is ASCII
+
+
+def github_layer(ctx, rng, thorough):
+    """OntologyStore wired to GitHubOntologyReleaseService / GitHubRemoteOntologyService exactly as `configure_ontology_store` does,
+    with `hpotk.store._github.urlopen` replaced by a fake GitHub: which of the listed tag names are releases, which one is the
+    latest, which URL is downloaded and what ends up in the cache."""
+    import re
+    import urllib.error
+    import hpotk.store._github as gh
+    from hpotk.store import OntologyStore, OntologyType, GitHubOntologyReleaseService, GitHubRemoteOntologyService
+    state = {'tags': [], 'requests': []}
+
+    class Dribble(io.BytesIO):
+        def read(self, *a):
+            if a and a[0] is not None and a[0] >= 0:
+                return super().read(min(a[0], 5))
+            return super().read(*a)
+
+    def fake_urlopen(url, *a, **k):
+        state['requests'].append(url)
+        m = re.match(r'^https://api\.github\.com/repos/([^/]+/[^/]+)/tags$', url)
+        if m and m.group(1) in GH_REPOS:
+            return io.BytesIO(json.dumps([{'name': n, 'commit': {'sha': '0' * 40}} for n in state['tags']]).encode())
+        m = re.match(r'^https://github\.com/([^/]+/[^/]+)/releases/download/([^/]+)/([a-z]+)\.json$', url)
+        if m and m.group(1) in GH_REPOS:
+            ty = GH_REPOS[m.group(1)]
+            if m.group(3) == {'HPO': 'hp', 'MAxO': 'maxo', 'MONDO': 'mondo'}[ty] and m.group(2) in state['tags']:
+                return Dribble(payload(ty, m.group(2)))
+        raise urllib.error.HTTPError(url, 404, 'Not Found', None, None)
+
+    cases = []
+    for d in range(1, 32):          # every day number as the greatest tag's day, every month number as its month
+        cases.append([f'v2021-10-{d:02d}', 'v2021-09-30', rng.choice(JUNK_TAGS), 'v2020-12-31'])
+    for mth in range(1, 13):
+        cases.append(['v2020-12-31', rng.choice(JUNK_TAGS), f'v2021-{mth:02d}-15', f'v2021-{mth:02d}-15x'])
+    cases += [[], ['v2024-12-12X'], JUNK_TAGS, ['v0000-00-00'], ['v9999-99-99', 'v2024-01-01'], ['v2024-01-01']]
+    for _ in range(120 if thorough else 30):
+        names = []
+        for _ in range(rng.randrange(1, 9)):
+            r = rng.random()
+            if r < 0.6:
+                names.append(f'v{rng.choice([1999, 2021, 2022, 2023, 2024])}-{rng.randrange(0, 14):02d}-{rng.randrange(0, 33):02d}')
+            else:
+                names.append(rng.choice(JUNK_TAGS))
+        cases.append(names)
+    reps = run_driver([{'op': 'store.tags', 'names': [[ord(ch) for ch in n] for n in names]} for names in cases])
+    real = gh.urlopen
+    gh.urlopen = fake_urlopen
+    try:
+        for names, rep in zip(cases, reps):
+            ty = rng.choice(['HPO', 'MAxO', 'MONDO'])
+            ot = OntologyType[ty]
+            want_tags = [n for n, p in zip(names, rep['prod']) if p]
+            want_latest = None if rep['latest'] is None else ''.join(chr(c) for c in rep['latest'])
+            ctx.case(['github', ty, names], True, 'github-services(fake urlopen)', sample={'type': ty, 'listed_tags': names, 'model_latest': want_latest} if len(cases) % 7 == 0 or names == cases[9] else None)
+            state['tags'], state['requests'] = list(names), []
+            parent = tempfile.mkdtemp(prefix='verif-c07-gh-')
+            problem = None
+            try:
+                try:
+                    got_tags = list(GitHubOntologyReleaseService().fetch_tags(ot))
+                except ValueError:
+                    got_tags = 'ValueError'
+                if names and got_tags != want_tags:
+                    problem = {'clause': 'production tags', 'impl': got_tags, 'model': want_tags}
+                elif not names and got_tags not in ('ValueError', []):
+                    problem = {'clause': 'production tags of an empty listing', 'impl': got_tags, 'model': []}
+                if problem is None:
+                    store = OntologyStore(os.path.join(parent, 'store'), GitHubOntologyReleaseService(), GitHubRemoteOntologyService())
+                    state['requests'] = []
+                    try:
+                        with warnings.catch_warnings():
+                            warnings.simplefilter('ignore')
+                            got = dump_onto(store.load_minimal_ontology(ot, prefixes_of_interest={{'HPO': 'HP', 'MAxO': 'MAXO', 'MONDO': 'MONDO'}[ty]}))
+                    except Exception as e:  # noqa
+                        got = f'raises {type(e).__name__}'
+                    cache, other = tree(os.path.join(parent, 'store'))
+                    downloads = [u for u in state['requests'] if '/releases/download/' in u]
+                    if want_latest is None:
+                        if not (isinstance(got, str) and got.startswith('raises')) or cache or downloads:
+                            problem = {'clause': 'no production tag listed', 'impl': {'result': got, 'cache': sorted(map(list, cache)), 'downloads': downloads},
+                                       'model': 'an error, nothing downloaded, nothing cached'}
+                    else:
+                        repo = [r for r, t in GH_REPOS.items() if t == ty][0]
+                        url = f'https://github.com/{repo}/releases/download/{want_latest}/{ {"HPO": "hp", "MAxO": "maxo", "MONDO": "mondo"}[ty] }.json'
+                        want_bytes = payload(ty, want_latest)
+                        if downloads != [url] or cache != {(ty, want_latest): want_bytes} or other:
+                            problem = {'clause': 'latest release', 'impl': {'downloads': downloads, 'cache': {f'{k[0]} {k[1]}': len(v) for k, v in cache.items()},
+                                                                          'other_entries': other, 'result': str(got)[:200]},
+                                       'model': {'download': url, 'cache': {f'{ty} {want_latest}': len(want_bytes)}}}
+            finally:
+                shutil.rmtree(parent, ignore_errors=True)
+            if problem:
+                ctx.violation(f'github:{problem["clause"]}', {'case': {'kind': 'github', 'type': ty, 'listed_tags': names}, **problem,
+                                                            'theorem': 'Hpv.Props.C07.latest_production_tag / no_incomplete_file'})
+    finally:
+        gh.urlopen = real
+
+
 def run(ctx):
     rng = ctx.rng
     thorough = ctx.tier == 'thorough'
     install()
+    github_layer(ctx, rng, thorough)
     alpha = op_alphabet()
     # (1) histories
     hist = [[a] for a in alpha] + [[a, b] for a in alpha for b in alpha]
@@ -661,5 +772,7 @@ def replay(ctx, data):
         run_history(ctx, c['ops'], c['relative'], 'replay')
     elif c['kind'] == 'crash':
         crash_points(ctx, c['prior_ops'], c['target'], 'replay')
+    elif c['kind'] == 'github':
+        github_layer(ctx, ctx.rng, False)
     else:
         run_schedule(ctx, c['jobs'], c['schedule'], 'replay')
